@@ -13,7 +13,8 @@ def validNum (lo : Nat) (s : Str) : Prop :=
 
 /-- an option (with its argument) that the switch of opt_args accepts for every variant of the code:
     valid numbers for -f / -t / -u, a user name within the limit, any -R / -e / -M text (checked later / never),
-    the flags -S -k -q -w and the options that change no setting; not -L -V -T -h (they end the program),
+    a -w argument whose words are well-formed `[rcmd_type:][user@]hosts` with loaded transports, the flags -S -k -q,
+    the options that change no setting and the options the modules registered; not -L -V -T -h (they end the program),
     not -y -z -Z (other modes), -d only where it is repaired -/
 def goodOpt (fx : Fixes) (d : Defaults) (o : OptW) : Prop :=
   match caseOf o.ch with
@@ -25,9 +26,10 @@ def goodOpt (fx : Fixes) (d : Defaults) (o : OptW) : Prop :=
   | .utmo => validNum 0 (o.arg.getD [])
   | .ruser => (o.arg.getD []).length ≤ d.loginMax
   | .flag f => f = .S ∨ f = .k ∨ f = .q ∨ f = .w
+  | .wcoll => wcollArg fx d (o.arg.getD []) = some true     -- every word well-formed, loaded transports, names targets
   | .dbg => fx.dopt = true
   | .exit0 => False
-  | .usage => False
+  | .usage => modOpt d o.ch = true                           -- an option a module registered (else: usage error)
 
 theorem timeoutArg_canonical (fx : Fixes) (s : Str) (hc : CInt.canonical s = true)
     (hr : (CInt.digitsVal s : Int) ≤ CInt.INT_MAX) :
@@ -88,8 +90,13 @@ theorem good_action (fx : Fixes) (d : Defaults) (o : OptW) (h : goodOpt fx d o) 
   | dbg =>
     simp only [hc] at h ⊢
     simp [h]
+  | wcoll =>
+    simp only [hc] at h ⊢
+    simp [h, Option.elim]
   | exit0 => simp [hc] at h
-  | usage => simp [hc] at h
+  | usage =>
+    simp only [hc] at h ⊢
+    simp [h]
 
 /-- if no token makes the switch exit, opt_args runs through -/
 theorem applyToks_ok_of_no_exit (fx : Fixes) (d : Defaults) (p : Pers) (toks : List Tok)
@@ -166,6 +173,6 @@ theorem caseOf_f : caseOf 'f' = .fanout := by decide
 theorem caseOf_t : caseOf 't' = .ctmo := by decide
 theorem caseOf_u : caseOf 'u' = .utmo := by decide
 theorem caseOf_l : caseOf 'l' = .ruser := by decide
-theorem caseOf_w : caseOf 'w' = .flag .w := by decide
+theorem caseOf_w : caseOf 'w' = .wcoll := by decide
 
 end PdshVerif.Opt
